@@ -165,7 +165,7 @@ func C07(c *core.Ctx) {
 		// recursion only into children of the receiver
 		for _, ci := range core.FindCallsDeep(pref, core.CalleeID{Pkg: "fw/table", Recv: "pitCsTreeNode", Name: "findMatchingDataCSPrefix"}) {
 			r, a := core.CallArgs(ci.Common())
-			ok := rangeComponent(r, 2, func(v ssa.Value) bool { return isFieldLoad(v, pref.Params[0], "children") }) && a[0] == ssa.Value(pref.Params[1])
+			ok := rangeComponent(r, 2, func(v ssa.Value) bool { return isFieldLoad(v, pref.Params[0], "children") }) && core.Same(a[0], pref.Params[1])
 			c.Decide(ok, "R7.1", "prefix-descends-into-children", c.Pos(ci), "recursion only into children of the current node", "prefix search leaves the subtree of the Interest name")
 		}
 		// returned csEntry belongs to the receiver
@@ -175,7 +175,7 @@ func C07(c *core.Ctx) {
 				return
 			}
 			if n2, ok := isCsEntryLoad(core.Strip(r.Results[0])); ok {
-				c.Decide(n2 == ssa.Value(pref.Params[0]), "R7.1", "prefix-entry-of-current-node", c.Pos(r), "returned entry is the current node's", "prefix branch returns the entry of another node")
+				c.Decide(core.Same(n2, pref.Params[0]), "R7.1", "prefix-entry-of-current-node", c.Pos(r), "returned entry is the current node's", "prefix branch returns the entry of another node")
 			}
 		})
 	}
